@@ -135,7 +135,7 @@ def coq_compile_case(variant, events, prog):
     return "((%s, (%s, (%s, (%s, %s)))), (%s, %s))" % (v[0], v[1], v[2], v[3], v[4], evs, real)
 
 
-K_IMPORTS = "Lib.Str Model.TALES Model.TALProg Model.TALVM Model.TALCompile Corr.K17"
+K_IMPORTS = "Lib.Str Model.TALES Model.TALProg Model.TALVM Model.TALCompile Model.TALDoc Corr.K17"
 K_PRE = "From Coq Require Import String.\n"
 
 
@@ -462,21 +462,69 @@ def coq_cvalL(v):
     return "(%s, (%s, (%s, (%s, %s))))" % (coq_s(v[0]), coq_bool(v[1]), coq_bool(v[2]), coq_bool(v[3]), ln)
 
 
+def coq_doc(nodes, cdata=False):
+    """the generator's tree as a Model/TALDoc.dnode forest: adjacent character data is one node (html.parser delivers
+    one data event per run), attributes in source order with their decoded values"""
+    out, pend = [], []
+
+    def flush():
+        if pend:
+            data = "".join(pend)
+            del pend[:]
+            if data:
+                out.append("DData %s %s" % (coq_s(data), coq_bool(cdata)))
+
+    for n in nodes:
+        if isinstance(n, talgen.Text):
+            pend.append(n.data)
+            continue
+        flush()
+        if isinstance(n, talgen.Raw):
+            src = n.src
+            if src.startswith("<!--") and src.endswith("-->"):
+                out.append("DComment " + coq_s(src[4:-3]))
+            elif src.startswith("<?") and src.endswith(">"):
+                out.append("DPi " + coq_s(src[2:-1]))
+            elif src.startswith("<!") and src.endswith(">"):
+                out.append("DDecl " + coq_s(src[2:-1]))
+            else:
+                raise ValueError("raw node %r has no document-tree form" % src)
+            continue
+        atts = coq_atts(talgen.source_parts(n))
+        sc = n.form in ("selfclose", "voidslash")
+        kids = [] if (sc or n.is_void()) else n.children
+        out.append("DElem %s %s %s %s" % (coq_s(n.tag), atts, coq_bool(sc),
+                                          coq_doc(kids, cdata=n.tag in ("script", "style"))))
+    flush()
+    return tlist(("(%s)" % x for x in out), "dnode")
+
+
 def k_spec_full(prop, name, rng, n, maxdepth, shard=60):
-    """all six TAL statements, no METAL: spec + data VM over the 'number of context operations' environment"""
-    cases = []
+    """all six TAL statements, no METAL: spec + data VM over the 'number of context operations' environment;
+    and (chk_doc) the document tree itself: its events are the real parser's, the specification applied to the tree
+    writes the real output"""
+    cases, trees, dlits = [], [], []
     for i in range(n):
-        case, nodes, lib = make_case(rng, i, maxdepth, metal=False, lib_prob=0.0, want=["prog", "evals2"], only=TALSIX)
+        case, nodes, lib = make_case(rng, i, maxdepth, metal=False, lib_prob=0.0, want=["prog", "evals2", "events"], only=TALSIX)
         cases.append(case)
+        trees.append(nodes)
     res = run_cases(cases)
     lits, src, skipped = [], [], 0
-    for case, r in zip(cases, res):
+    for case, r, nodes in zip(cases, res, trees):
         if "compile_exc" in r or r.get("exc") or "evals2" not in r or len(r["evals2"]) >= 4000 or len(r["out"]) > 20000:
             skipped += 1
             continue
         tbl = tlist(("((%d%%nat, (%s, %s)), %s)" % (ver, coq_s(e), coq_pairs(o), coq_cvalL(v)) for ver, e, o, v in r["evals2"]),
                     "(nat * (str * list (str * str))) * cvalL")
         lits.append("(%s, (%s, (%s, %d%%nat)))" % (coq_program(r["prog"]["main"]), tbl, coq_s(r["out"]), r["nops"]))
+        evs = tlist((coq_event(e) for e in r["events"]["main"]), "event")
+        dlits.append("((%s, %s), (%s, (%s, %d%%nat)))" % (coq_doc(nodes), evs, tbl, coq_s(r["out"]), r["nops"]))
         src.append({"template": case["main"], "context": case["ctx"], "output": r["out"], "context_operations": r["nops"]})
     mism, err, nsh = coq_eval(prop, name, K_IMPORTS, "chk_spec_full", lits, shard=shard, pre=K_PRE)
+    mism_d, err_d, nsh_d = coq_eval(prop, name + "_doc", K_IMPORTS, "chk_doc", dlits, shard=shard, pre=K_PRE)
+    K_DOC.clear()
+    K_DOC.update({"mismatches": mism_d, "error": err_d, "shards": nsh_d, "cases": len(dlits)})
     return mism, err, nsh, src, skipped
+
+
+K_DOC = {}
